@@ -211,6 +211,15 @@ def run(chk):
                 longer = [(a_, b_, 'again: ' + a_) for a_ in base3 for b_ in base3 if a_ != b_] + [(a_, b_, a_) for a_ in base3[:4] for b_ in base3[:4] if a_ != b_] + \
                          [(a_, b_, a_, b_) for a_ in base3[:3] for b_ in base3[:3] if a_ != b_]
             seqs = seqs + longer
+            # cold starts: the world joins the orbit before its state is complete (no spin yet; or no eccentricity yet), the orbit is changed, and the missing quantity arrives
+            # last -- in a call of its own, which raises only its own change flag.  Everything an earlier, incomplete update skipped must be made up for.
+            cold = [('cold:spin', 'orbit.set_semi_major_axis', 'world.set_spin_frequency'), ('cold:spin', 'world.set_state(semi_major_axis)', 'world.set_spin_frequency'),
+                    ('cold:spin', 'orbit.set_eccentricity', 'world.set_state(spin_frequency)'), ('cold:e', 'orbit.set_semi_major_axis', 'orbit.set_eccentricity'),
+                    ('cold:e', 'world.set_spin_frequency', 'world.set_state(eccentricity)')]
+            if chk.tier != 'quick':
+                cold += [('cold:spin', 'orbit.set_semi_major_axis', 'orbit.set_eccentricity', 'world.set_spin_frequency'), ('cold:spin', 'world.set_fixed_q', 'orbit.set_semi_major_axis', 'world.set_spin_frequency'),
+                         ('cold:e', 'orbit.set_semi_major_axis', 'world.set_obliquity', 'orbit.set_state(eccentricity)'), ('cold:spin', 'world.set_obliquity', 'world.set_spin_frequency')]
+            seqs = seqs + cold
             # second pass with numpy arrays as state values (mutable cells: `x = y` aliases, `x op= c` updates in place): the driver's own arrays must come back intact
             array_seqs = [(m,) for m in singles] + (pairs if chk.tier != 'quick' else pairs[:3])
             for arrays, seq in [(False, q_) for q_ in seqs] + [(True, q_) for q_ in array_seqs]:
@@ -231,11 +240,15 @@ def run(chk):
                         c_ = ArrBox(v); handed.append((label, c_, v))
                         return c_
                     stb = {k_: (hand(f'initial {k_}', v_) if k_ in ('Q', 'dt', 'spin', 'obl', 'e', 'a') else v_) for k_, v_ in st0.items()}
+                    if seq and seq[0].startswith('cold:'):
+                        stb[{'spin': 'spin', 'e': 'e'}[seq[0][5:]]] = None          # not known yet when the world joins the orbit
                     s = build(repo, it, stb, use_ctl, obliq_on)
                     full_init(it, s)
                     call(it, s.world, 'orbit_spin_changed', orbital_freq_changed=True, spin_freq_changed=True, eccentricity_changed=True, obliquity_changed=True)
                     sent = {}
                     for i, mname in enumerate(seq):
+                        if mname.startswith('cold:'):
+                            continue
                         if mname.startswith('again: '):
                             # the value of the first step is sent once more (A ; B ; A): a cache that remembers "the last value seen" must not mistake it for no change
                             key, fn_ = MUTATORS[mname[7:]]
@@ -260,16 +273,34 @@ def run(chk):
                     if arrays:
                         out_['__handed__'] = [(lab_, c_.v, v_) for lab_, c_, v_ in handed]
                     return out_
+                hist_raise = None
                 try:
                     # a tolerance test on the state (np.allclose(new, current)) may come out either way for values that differ: both outcomes are histories
                     got, path_label = explore_history(history)
+                except RaiseSignal as ex:
+                    hist_raise = ex
+                    if not seq or not seq[0].startswith('cold:'):
+                        raise AnalysisError(f'sequence {seq} on {model}: unexpected raise {ex.text}')
+                    # (the values the history would have sent are needed for the fresh world: replay the bookkeeping only)
+                    for i, mname in enumerate(seq):
+                        if mname.startswith('cold:') or mname.startswith('again: '): continue
+                        key = MUTATORS[mname][0]
+                        if key in ('same', 'Q+dt'): continue
+                        final[key] = X.atom(f'{key}{i + 1}', 'pos' if key in ('e', 'a', 'Q', 'dt') else 'real')
+                try:
                     it2 = make_interp(repo)
                     sf = build(repo, it2, final, use_ctl, obliq_on)
                     full_init(it2, sf)
                     call(it2, sf.world, 'orbit_spin_changed', orbital_freq_changed=True, spin_freq_changed=True, eccentricity_changed=True, obliquity_changed=True)
                     ref = exposed(sf)
                 except RaiseSignal as ex:
-                    raise AnalysisError(f'sequence {seq} on {model}: unexpected raise {ex.text}')
+                    raise AnalysisError(f'fresh world for sequence {seq} on {model}: unexpected raise {ex.text}')
+                if hist_raise is not None:
+                    # the history ends in an exception where a fresh world placed in the same final state works: a history-dependent outcome
+                    inst = f'{model}{", array-valued state" if arrays else ""}: after {" ; ".join(seq)} every exposed tidal quantity equals that of a fresh world in the final state'
+                    chk.ob('R13.3', inst, False, f'the sequence raises {hist_raise.text[:120]} (a quantity an earlier, incomplete update should have set is missing); a fresh world in the final state does not',
+                           where_t, key=f'R13.3|{model}{"|arrays" if arrays else ""}|{"+".join(seq)}', method='abstract object graph + GF(p^2) PIT')
+                    continue
                 bad = []
                 for lab_, now_, was_ in got.pop('__handed__', []):
                     if now_ is not was_ and not d.equal(now_, was_):
